@@ -7,7 +7,7 @@
 From RX Require Import Base.Prelude Base.InvList Tables.Consts Model.Case Model.Op Model.Engine Model.Matcher
      Model.Compiler Model.Api Spec.Syntax Spec.Sem Spec.Parse Proofs.EngineFacts Proofs.MatcherFacts Proofs.LeafFacts
      Proofs.SmallFacts Proofs.LiteralFacts Proofs.LowerFacts Proofs.PlainPattern Spec.Repl Proofs.ReplProof Proofs.ReplaceFacts
-     Proofs.ScanFacts Proofs.LiteralApi.
+     Proofs.ScanFacts Proofs.AnalyzeFacts Proofs.AnalyzeTreeFacts Proofs.AnalyzeIterFacts Proofs.LiteralApi.
 
 (* ---------- the specification's parser on an ordinary pattern ---------- *)
 Lemma p_quant_none c t : c <> 63%N -> c <> 42%N -> c <> 43%N -> c <> 123%N -> p_quant (c :: t) = PV None (c :: t).
@@ -198,4 +198,39 @@ Proof.
   - apply (literal_replace_valid pat (f_case fl) (f_multi fl) false input Hfit Hne repl its st0 eq_refl Ep).
   - intros s' Hn Hm. apply (literal_replace_invalid pat (f_case fl) (f_multi fl) false input Hfit Hne repl st0 s' eq_refl Ep Hn Hm).
   - apply Tot. reflexivity.
+Qed.
+
+(* tokenize and analyze on an ordinary pattern, from the strings: the tokens are the pieces of the
+   input between the occurrences the scan visits (at most len+1), and the texts of all entries of a
+   finished analyze iteration concatenate to the input (at most 2*len+1 entries) *)
+Theorem ordinary_tokenize_analyze_end_to_end xpath pat fls input :
+  forallb ordinary pat = true -> pat <> [] -> (N.of_nat (length pat) <= umax)%N ->
+  existsb (N.eqb 59) fls = false ->
+  match spec_flags xpath fls with
+  | Valid sf =>
+      s_q sf = false -> s_x sf = false ->
+      exists re, regex_new false xpath pat fls = Ok re /\ r_nullable re = false
+        /\ tok_all (matches (r_prog re) input) input (S (S (S (length input)))) {| t_prev := Some 0; t_ms := st0 |}
+           = Ok (pieces input (scan (matches (r_prog re) input) input (S (S (length input))) 0 st0) 0)
+        /\ (forall table fuel l,
+              an_all (matches (r_prog re) input) (process_matching_substring table) input fuel
+                     {| a_next := None; a_prev := Some 0; a_skip := false; a_ms := st0 |} = Ok l ->
+              flat_map atext l = input /\ length l <= 2 * length input + 1)
+  | _ => True
+  end.
+Proof.
+  intros Ho Hne Hfit Hsep. pose proof (parse_flags_spec xpath fls Hsep) as PF. unfold regex_new.
+  destruct (parse_flags xpath fls) as [fl|e| |] eqn:Efl; destruct (spec_flags xpath fls) as [sf| |] eqn:Esf;
+    try contradiction; try exact I; try (destruct e; contradiction).
+  destruct PF as [(A1 & A2 & A3 & A4 & A5) Hx]. intros Hq Hws.
+  cbn [rbind]. rewrite (compile_ordinary false fl pat) by congruence. cbn [rbind].
+  set (prog := mk_program pat (OSeq [OAtom pat; OEnd]) 1 (f_case fl) (f_multi fl) false false).
+  pose proof (literal_matches_spec pat (f_case fl) (f_multi fl) false [] Hfit 0 st0 (le_n 0) eq_refl) as M0.
+  fold prog in M0.
+  destruct (matches prog [] 0 st0) as [s0|s0| |k0] eqn:E0; try contradiction.
+  { exfalso. destruct M0 as (k & _ & _ & Hocc & _). unfold occurs_at in Hocc. apply andb_true_iff in Hocc as [H1 _].
+    apply Nat.leb_le in H1. cbn [length] in H1. destruct pat; [contradiction|cbn in H1; lia]. }
+  cbn [mres_bool rbind]. eexists. split; [reflexivity|]. cbn [r_nullable r_prog]. split; [reflexivity|]. split.
+  - apply (literal_tokenize pat (f_case fl) (f_multi fl) false input Hfit Hne (S (length input)) 0 st0); [reflexivity|lia|lia].
+  - intros table fuel l H. apply (literal_analyze pat (f_case fl) (f_multi fl) false input Hfit Hne table fuel st0 l eq_refl H).
 Qed.
